@@ -15,8 +15,8 @@ print(int(bool(m.get('applies') in ('ok','3way') and m.get('builds') and m.get('
   if [ "$ok" = 1 ]; then
     for ck in $id ${CROSS[$n]}; do
       out=$(timeout 1800 ${TRY:-tools/trymutant.sh} /verif/$d/patch.diff $ck 2>&1)
-      sigs=$(echo "$out" | grep -o "^VIOLATION property=[A-Z0-9]* replay=[^ ]* sig=[^ ]*" | sed 's/.*sig=//' | sort -u | head -4 | paste -sd',')
-      if echo "$out" | grep -q "^VIOLATION"; then res="$res $ck:DETECTED($sigs)"; elif echo "$out" | grep -q "^$ck quick: .*violations=[1-9]"; then res="$res $ck:DETECTED(see-run)"; elif echo "$out" | grep -q "^$ck quick: .*violations=0"; then res="$res $ck:missed"; else res="$res $ck:HARNESS-ERROR"; fi
+      sigs=$(echo "$out" | grep -a -o "^VIOLATION property=[A-Z0-9]* replay=[^ ]* sig=[^ ]*" | sed 's/.*sig=//' | sort -u | head -4 | paste -sd',')
+      if echo "$out" | grep -a -q "^VIOLATION"; then res="$res $ck:DETECTED($sigs)"; elif echo "$out" | grep -a -q "^$ck quick: .*violations=[1-9]"; then res="$res $ck:DETECTED(see-run)"; elif echo "$out" | grep -a -q "^$ck quick: .*violations=0"; then res="$res $ck:missed"; else res="$res $ck:HARNESS-ERROR"; fi
     done
   else
     res="not-kept"
